@@ -16,11 +16,26 @@ def cache_history(ctx, rng, n_ops=12):
     from phasegen.lineage import LineageConfig
     from phasegen.demography import Epoch
     use_cache = rng.random() < 0.7
-    sizes = [1.0, 2.0, 0.5, 4.0]
-    epochs = [Epoch(start_time=float(i), end_time=float(i + 1), pop_sizes={'pop_0': s}) for i, s in enumerate(sizes)]
-    # an epoch with the same content as epoch 0 but other times: must be treated as the same key
-    alias = Epoch(start_time=7.0, end_time=9.0, pop_sizes={'pop_0': sizes[0]})
-    ss = LineageCountingStateSpace(lineage_config=LineageConfig(3), epoch=epochs[0])
+    two = rng.random() < 0.5
+    if not two:
+        sizes = [1.0, 2.0, 0.5, 4.0]
+        epochs = [Epoch(start_time=float(i), end_time=float(i + 1), pop_sizes={'pop_0': s}) for i, s in enumerate(sizes)]
+        # an epoch with the same content as epoch 0 but other times: must be treated as the same key
+        alias = Epoch(start_time=7.0, end_time=9.0, pop_sizes={'pop_0': sizes[0]})
+        mk_cfg = lambda: LineageConfig(3)
+    else:
+        # two demes; every epoch differs from epoch 0 in exactly ONE field (one size, or one DIRECTED migration rate, either
+        # direction): the key of the cache is the whole content of the epoch
+        base_s, base_m = {'pop_0': 1.0, 'pop_1': 2.0}, {('pop_0', 'pop_1'): 0.5, ('pop_1', 'pop_0'): 0.25}
+        variants = [({}, {}), ({'pop_1': 3.0}, {}), ({}, {('pop_0', 'pop_1'): 1.5}), ({}, {('pop_1', 'pop_0'): 1.25}), ({'pop_0': 0.5}, {})]
+        rng.shuffle(variants)
+        variants = [({}, {})] + [v for v in variants if v != ({}, {})][:3]
+        epochs = [Epoch(start_time=float(i), end_time=float(i + 1), pop_sizes={**base_s, **ds}, migration_rates={**base_m, **dm})
+                  for i, (ds, dm) in enumerate(variants)]
+        alias = Epoch(start_time=7.0, end_time=9.0, pop_sizes=dict(base_s), migration_rates=dict(base_m))
+        mk_cfg = lambda: LineageConfig({'pop_0': 2, 'pop_1': 1})
+        ctx.count('cache-histories-two-demes')
+    ss = LineageCountingStateSpace(lineage_config=mk_cfg(), epoch=epochs[0])
     ss.cache = use_cache
     count = [0]
     orig = ss.get_transitions
@@ -30,7 +45,7 @@ def cache_history(ctx, rng, n_ops=12):
     ss.get_transitions = counted
     fresh = []
     for e in epochs:
-        f = LineageCountingStateSpace(lineage_config=LineageConfig(3), epoch=e)
+        f = LineageCountingStateSpace(lineage_config=mk_cfg(), epoch=e)
         fresh.append(np.array(f.S))
     ops, answers = [], []
     for _ in range(n_ops):
